@@ -164,23 +164,79 @@ def run(ctx):
             ctx.report([dict(v, family="tablespar") for v in bad[:5]], "imposed schedules in the -race build")
     ctx.cov["race_build_schedules"] = len(sub)
     ctx.cov["traces_validated_against_impl"] += len(sub)
-    # (T)
+    # (T) two layers.  Observer (verdict): what was observed must be free of conflicting concurrent
+    # accesses and of reads before the final write (TablesParObs_trace: any event order is accepted,
+    # only the safety invariants of C15 are judged).  Design conformance (no verdict): the same
+    # traces must be behaviours of the design specification (TablesPar_trace / TablesParDyn_trace);
+    # a rejection there while the observer accepts means the code was restructured away from the
+    # model (another fan-out bound, another join structure) and is logged, not reported.
     ntr = 25 if q else 200
-    tp = os.path.join(ctx.work, "tp-trace.ndjson")
-    ctx.harness(["tablespar", "record", tp, ntr])
-    ok, hwm, r = ctx.trace_validate("TablesPar_trace.tla", "TablesPar_trace.cfg", tp, timeout=1800)
-    if not ok:
+    def record_own(path):
+        ctx.harness(["tablespar", "record", path, ntr])
+        return path
+    def record_repo_tests(path):
+        # the repository's own golden tests of cmd/benchstat, with a recording hook overlaid into
+        # the test package (harness/rectests/cmd__benchstat), at several GOMAXPROCS
+        ovp = os.path.join(ctx.work, "overlay-rectests.json")
+        json.dump({"Replace": {os.path.join(vlib.REPO, "cmd/benchstat/zz_verif_rec_test.go"):
+                               os.path.join(vlib.VERIF, "harness", "rectests", "cmd__benchstat", "zz_verif_rec_test.go")}}, open(ovp, "w"))
+        tb = os.path.join(ctx.work, "benchstat-rec.test")
+        import subprocess
+        pr = subprocess.run(["go", "test", "-c", "-vet=off", "-tags", "verif", "-overlay", ovp, "-o", tb, "./cmd/benchstat"], cwd=vlib.REPO, env=ctx.goenv(),
+                            stdout=subprocess.PIPE, stderr=subprocess.STDOUT, text=True)
+        if pr.returncode != 0:
+            raise vlib.Infra("building cmd/benchstat's test binary with the recorder failed:\n" + pr.stdout[-2000:])
+        if os.path.exists(path):
+            os.remove(path)
+        for gp in (("1", "4", "16") if q else ("1", "2", "3", "4", "8", "16")):
+            env = dict(os.environ); env["VERIF_TRACE"] = path; env["GOMAXPROCS"] = gp
+            pr = subprocess.run([tb, "-test.count", "1"], cwd=os.path.join(vlib.REPO, "cmd/benchstat"), env=env, stdout=subprocess.PIPE, stderr=subprocess.STDOUT, text=True, timeout=900)
+            if pr.returncode != 0:
+                # not this check's verdict (the repository's suite is the baseline's business); the runs
+                # recorded so far are still validated
+                vlib.log("NOTE cmd/benchstat's own tests fail under the recorder (GOMAXPROCS=%s): %s" % (gp, pr.stdout[-300:].replace("\n", " | ")))
+                ctx.cov["repo_tests_failed_under_recorder"] = True
+        with open(path, "a") as fh:
+            fh.write(json.dumps({"ev": "reset", "limit": 0, "nt": 1, "cells": [], "cols": [], "base": [1]}) + "\n")
+        return path
+    drift = []
+    for name, rec, strict in (("own", record_own, ("TablesPar_trace.tla", "TablesPar_trace.cfg")),
+                              ("repo-tests", record_repo_tests, ("TablesParDyn_trace.tla", "TablesParDyn_trace.cfg"))):
+        tp = rec(os.path.join(ctx.work, "tp-trace-%s.ndjson" % name))
         evs = ctx.read_ndjson(tp)
-        bad = evs[min(hwm, len(evs) - 1)]
-        # reproduce: record again and validate again
-        tp2 = os.path.join(ctx.work, "tp-trace2.ndjson")
-        ctx.harness(["tablespar", "record", tp2, ntr])
-        ok2, hwm2, r2 = ctx.trace_validate("TablesPar_trace.tla", "TablesPar_trace.cfg", tp2, timeout=1800)
-        if ok2:
-            raise vlib.Infra("trace rejection did not reproduce (event %d: %s)" % (hwm, bad))
-        sig = "trace-" + (re.search(r"Invariant (\w+) is violated", r.error).group(1) if r.error and "Invariant" in r.error else "not-a-behaviour")
-        ctx.report([{"signature": sig, "detail": "hook trace rejected by TablesPar_trace at event %d: %s" % (hwm, json.dumps(bad)), "family": "tablespar-trace"}], "trace validation")
-    ctx.cov["traces_validated_against_impl"] += ntr
+        nruns = sum(1 for e in evs if e["ev"] == "reset") - 1
+        if nruns < 5 and not ctx.cov.get("repo_tests_failed_under_recorder"):
+            raise vlib.Infra("recorder %s produced only %d runs" % (name, nruns))
+        if nruns < 1:
+            continue
+        ok, hwm, r = ctx.trace_validate("TablesParObs_trace.tla", "TablesParObs_trace.cfg", tp, timeout=1800)
+        if not ok:
+            bad = evs[min(hwm, len(evs) - 1)]
+            inv = re.search(r"Invariant (\w+) is violated", r.error or "")
+            if not inv:
+                raise vlib.Infra("observer trace specification could not follow the %s trace at event %d (%s): %s" % (name, hwm, bad, (r.error or "")[:500]))
+            again = False
+            for attempt in range(3):
+                tp2 = rec(os.path.join(ctx.work, "tp-trace-%s-again.ndjson" % name))
+                ok2, hwm2, r2 = ctx.trace_validate("TablesParObs_trace.tla", "TablesParObs_trace.cfg", tp2, timeout=1800)
+                if not ok2 and re.search(r"Invariant (\w+) is violated", r2.error or ""):
+                    again = True
+                    break
+            if not again:
+                raise vlib.Infra("an observed %s violation did not recur in 3 further recordings (event %d: %s)" % (inv.group(1), hwm, bad))
+            ctx.report([{"signature": "trace-" + inv.group(1), "family": "tablespar-trace",
+                         "detail": "hook trace (%s) violates %s at event %d: %s" % (name, inv.group(1), hwm, json.dumps(bad))}], "trace validation (observer)")
+        ctx.cov["traces_validated_against_impl"] += nruns
+        ok, hwm, r = ctx.trace_validate(strict[0], strict[1], tp, timeout=1800, deque=True)
+        if not ok:
+            bad = evs[min(hwm, len(evs) - 1)]
+            why = re.search(r"Invariant (\w+) is violated", r.error or "")
+            drift.append("%s: not a behaviour of %s at event %d (%s)%s" % (name, strict[0], hwm, json.dumps(bad)[:200], " [" + why.group(1) + "]" if why else ""))
+        ctx.cov.setdefault("trace_runs", {})[name] = nruns
+    if drift:
+        for d in drift:
+            vlib.log("NOTE design conformance: " + d)
+        ctx.cov["design_conformance_rejections"] = drift
     # binary repeat / permutation
     rp = os.path.join(ctx.work, "repeat.json")
     ctx.harness(["tablespar", "repeat", bins["benchstat"], 6 if q else 60, rp], timeout=2400)
